@@ -102,8 +102,8 @@ Definition ps_commit_op (op : ps_op) : bool :=
   end.
 
 Definition ps_tmpw (s : ps_sys) : Prop :=
-  forall h x, ps_hget h (ps_hs s) = Some x -> ph_open x = true ->
-              ps_writable (ph_mode x) = true -> ps_is_tmp (ph_name x) = true.
+  forall h x, ps_hget h (ps_hs s) = Some x -> psh_open x = true ->
+              ps_writable (psh_mode x) = true -> ps_is_tmp (psh_name x) = true.
 
 Lemma ps_tmpw_boot : forall fs, ps_tmpw (ps_boot fs).
 Proof. intros fs h x H. discriminate. Qed.
@@ -118,22 +118,22 @@ Proof. intros. unfold ps_view. rewrite H. reflexivity. Qed.
 Lemma ps_out_spec : forall pol s h d fl cl s',
   ps_out pol s h d fl cl = Some s' ->
   exists x now later,
-    ps_hget h (ps_hs s) = Some x /\ ph_open x = true /\ ps_writable (ph_mode x) = true /\
-    now ++ later = ph_pend x ++ d /\ (fl = true -> later = []) /\
-    ps_fs s' = ps_append (ph_name x) now (ps_fs s) /\
-    ps_hs s' = ps_hput h (mkPsH (ph_name x) (ph_mode x) (ph_data x) (ph_pos x) later (negb cl)) (ps_hs s) /\
+    ps_hget h (ps_hs s) = Some x /\ psh_open x = true /\ ps_writable (psh_mode x) = true /\
+    now ++ later = psh_pend x ++ d /\ (fl = true -> later = []) /\
+    ps_fs s' = ps_append (psh_name x) now (ps_fs s) /\
+    ps_hs s' = ps_hput h (mkPsH (psh_name x) (psh_mode x) (psh_data x) (psh_pos x) later (negb cl)) (ps_hs s) /\
     ps_next s' = ps_next s.
 Proof.
   intros pol s h d fl cl s' H. unfold ps_out in H.
   destruct (ps_hget h (ps_hs s)) as [x|] eqn:Hx; [|discriminate].
-  destruct (ph_open x && ps_writable (ph_mode x)) eqn:Ho; [|discriminate].
+  destruct (psh_open x && ps_writable (psh_mode x)) eqn:Ho; [|discriminate].
   apply andb_true_iff in Ho. destruct Ho as [Ho Hw].
   destruct fl.
-  - inversion H; subst; clear H. exists x, (ph_pend x ++ d), [].
+  - inversion H; subst; clear H. exists x, (psh_pend x ++ d), [].
     repeat split; try assumption; try reflexivity. apply app_nil_r.
   - unfold ps_push in H.
-    set (all := ph_pend x ++ d) in *.
-    set (n := ps_clip 0 (len all) (pol (len (ph_pend x)) (len d))) in *.
+    set (all := psh_pend x ++ d) in *.
+    set (n := ps_clip 0 (len all) (pol (len (psh_pend x)) (len d))) in *.
     inversion H; subst; clear H. exists x, (take n all), (drop n all).
     repeat split; try assumption; try reflexivity.
     + unfold take, drop. apply firstn_skipn.
@@ -142,7 +142,7 @@ Qed.
 
 Lemma ps_tmpw_hput : forall s' s h y,
   ps_tmpw s -> ps_hs s' = ps_hput h y (ps_hs s) ->
-  (ph_open y = true -> ps_writable (ph_mode y) = true -> ps_is_tmp (ph_name y) = true) ->
+  (psh_open y = true -> ps_writable (psh_mode y) = true -> ps_is_tmp (psh_name y) = true) ->
   ps_tmpw s'.
 Proof.
   intros s' s h y Hs Hh Hy g x Hg Ho Hw. rewrite Hh in Hg. rewrite ps_hget_hput in Hg.
@@ -174,9 +174,9 @@ Proof.
         apply ps_get_put_other. apply ps_base_ne_tmp. exact Hq.
   - (* read *)
     unfold ps_step. destruct (ps_hget h (ps_hs s)) as [x|] eqn:Hx; [|split; [exact Hs|reflexivity]].
-    destruct (ph_open x && negb (ps_writable (ph_mode x))) eqn:Ho; [|split; [exact Hs|reflexivity]].
+    destruct (psh_open x && negb (ps_writable (psh_mode x))) eqn:Ho; [|split; [exact Hs|reflexivity]].
     apply andb_true_iff in Ho. destruct Ho as [_ Hw]. apply negb_true_iff in Hw.
-    destruct ((0 <? sz) && (ph_pos x + sz <=? len (ph_data x))); cbn [snd].
+    destruct ((0 <? sz) && (psh_pos x + sz <=? len (psh_data x))); cbn [snd].
     + split; [|intro; reflexivity].
       eapply ps_tmpw_hput; [exact Hs|reflexivity|]. cbn. intros _ H. congruence.
     + destruct (0 <? sz); cbn [snd]; [|split; [exact Hs|reflexivity]].
@@ -184,9 +184,9 @@ Proof.
       eapply ps_tmpw_hput; [exact Hs|reflexivity|]. cbn. intros _ H. congruence.
   - (* gets *)
     unfold ps_step. destruct (ps_hget h (ps_hs s)) as [x|] eqn:Hx; [|split; [exact Hs|reflexivity]].
-    destruct (ph_open x && negb (ps_writable (ph_mode x))) eqn:Ho; [|split; [exact Hs|reflexivity]].
+    destruct (psh_open x && negb (ps_writable (psh_mode x))) eqn:Ho; [|split; [exact Hs|reflexivity]].
     apply andb_true_iff in Ho. destruct Ho as [_ Hw]. apply negb_true_iff in Hw.
-    destruct (ps_line (Z.to_nat (cap - 1)) (drop (ph_pos x) (ph_data x))); cbn [snd];
+    destruct (ps_line (Z.to_nat (cap - 1)) (drop (psh_pos x) (psh_data x))); cbn [snd];
       [split; [exact Hs|reflexivity]|].
     split; [|intro; reflexivity].
     eapply ps_tmpw_hput; [exact Hs|reflexivity|]. cbn. intros _ H. congruence.
@@ -219,8 +219,8 @@ Proof.
       apply ps_base_ne_tmp. eapply Hs; eassumption.
   - (* close *)
     unfold ps_step. destruct (ps_hget h (ps_hs s)) as [x|] eqn:Hx; [|split; [exact Hs|reflexivity]].
-    destruct (ph_open x) eqn:Ho; [|split; [exact Hs|reflexivity]].
-    destruct (ps_writable (ph_mode x)) eqn:Hw.
+    destruct (psh_open x) eqn:Ho; [|split; [exact Hs|reflexivity]].
+    destruct (ps_writable (psh_mode x)) eqn:Hw.
     + destruct (ps_out pol s h [] true true) as [s'|] eqn:E; cbn [snd];
         [|split; [exact Hs|reflexivity]].
       apply ps_out_spec in E.
